@@ -466,9 +466,10 @@ def create_cases():
                     ctx.oblige("success: the new address is pushed and the returned bytes become the account's code; its storage writes persist", z3.And(z3.ZeroExt(96, new_addr) == (tz if tz.size() == 256 else z3.ZeroExt(256 - tz.size(), tz)), z3.BoolVal(len(nx.code[new_addr]) == 3 and storage_fingerprint(nx.storage) != pre.storage)))
                 else:
                     ctx.oblige("failure: 0 is pushed", z3.simplify(tz) == 0)
+                    ctx.oblige("failure: the restored state is a fresh copy of the snapshot (every failing path of the init code runs this callback: a second continuation restoring from the same snapshot cannot interfere)", z3.BoolVal(nx.storage is not snap["orig_storage"] and nx.transient_storage is not snap["orig_transient_storage"] and nx.code is not snap["orig_code"] and all(nx.storage[a] is not snap["orig_storage"][a] for a in nx.storage) and all(nx.transient_storage[a] is not snap["orig_transient_storage"][a] for a in nx.transient_storage)))
                     ctx.oblige("failure: the account, its storage and the endowment transfer are undone (state exactly as before the creation)", z3.BoolVal(storage_fingerprint(nx.storage) == pre.storage and storage_fingerprint(nx.transient_storage) == pre.transient and [str(k) for k in nx.code] == pre.code_keys and nx.balance is pre.balance))
 
-            out.append(Case(f"{PROP}/sevm.SEVM.create", f"{name},init code {outcome}", harness, sources=("halmos.sevm:SEVM.create",)))
+            out.append(Case(f"{PROP}/sevm.SEVM.create", f"{name},init code {outcome}", harness, replay=replay_script("create_sibling_storage.py", "a constructor that fails on two paths; the creator reads and then writes its storage after the failed CREATE"), sources=("halmos.sevm:SEVM.create",)))
     return out
 
 
